@@ -71,10 +71,23 @@ def run(ctx, tier):
     f = floor(rule, 'file writes / growth in the open trace', len(Ws), 2)
     if f:
         results.append(f)
+    import c06
     for w in Ws:
         if w['node'] in reach_wo:
             p = T.path(start, w['node'], avoid=okn)
-            results.append(bad(rule, '%s | %s=%s before the lock' % (op.qual, w['ev'], w['callee']),
+            # how was the file obtained?  (exclusive creation makes the early write harmless to an existing database)
+            n = T.nodes[w['node']]
+            du = ctx.du(n.fn)
+            _, atoms = du.slice_operand(n.fn.term(n.bb)['args'][0])
+            excl = False
+            for a in atoms:
+                if a[0] == 'call' and a[2] in F.by_path:
+                    g = F.by_path[a[2]]
+                    for pi, v in c06.const_args(g, n.fn.term(a[1])).items():
+                        if v and c06._creates_new_under(F, ctx, g, pi):
+                            excl = True
+            how = '' if excl else ' on a file not created exclusively'
+            results.append(bad(rule, '%s | %s=%s before the lock%s' % (op.qual, w['ev'], w['callee'], how),
                                'the file %s at %s (creation branch of open) happens before the exclusive file lock is taken: a second process that finds the path existing locks first '
                                'and maps a short or uninitialised file' % ('growth' if w['ev'] == 'G' else 'write', w['loc']), where=w['loc'], path=T.describe_path(p or [])))
         else:
